@@ -2,7 +2,7 @@
 
 Theorems (coq/Props/C04.v): for ALL attacker functions on every flight, both endpoints completing
 implies identical transcripts / keys / hellos / views (TLS<=1.2 full and abbreviated, TLS 1.3 full /
-HRR / PSK; idealised PRF and hash: suffix _ideal); no downgrade; sentinel written / checked; SCSV
+HRR / PSK; idealised PRF and hash: suffix _ideal); no downgrade; sentinel written (full + resumed) / checked; SCSV
 enforced; second ClientHello bound.  Ties: (a) translator table of every transcript-update, sentinel,
 SCSV, Finished-comparison site (obligation transcript_sites_as_modelled); (b) correspondence: an
 on-path byte-level proxy between two live endpoints; the model's decision functions are evaluated by
@@ -25,7 +25,7 @@ META = {
             'applied to every flight in both directions and the honest endpoints\' message contents are arbitrary oracles: '
             'if both endpoints complete then their transcripts, keys, hellos and negotiated views are equal (TLS<=1.2 full, '
             'abbreviated; TLS 1.3 full, HelloRetryRequest, PSK) and equal the server\'s answer to the honest offer; the '
-            'downgrade sentinel is written (full handshake; REFUTED for the resumed ServerHello) and checked, FALLBACK_SCSV '
+            'downgrade sentinel is written (full and resumed ServerHello) and checked, FALLBACK_SCSV '
             'is enforced, the second ClientHello is bound to the first outside the HRR-permitted extensions. Tied to /repo by a '
             'regenerated site table and by a byte-level man-in-the-middle between live endpoints on which the property '
             'itself and the model\'s decision functions are checked.',
@@ -375,7 +375,7 @@ Definition chk_client (c : Z * Z * chello * shello * Z * Z * bool) : bool :=
 Definition chk_client_dg (c : Z * Z * chello * shello * Z * Z * bool) : bool :=
   let '(cmin, cmax, ch, sh, cobs, code, dg) := c in
   if dg then sentinel_hit cmax (sh_version sh) (sh_tail sh) && (code =? ALERT_ILLEGAL_PARAMETER) else true.
-(* K3: sentinel written by a full-handshake ServerHello *)
+(* K3: sentinel written by every TLS <= 1.2 ServerHello, full or resumed *)
 Definition chk_written (c : Z * Z * Z) : bool :=
   let '(smax, v, tail) := c in sentinel_for smax v tail =? tail.
 (* K4: second ClientHello.  sobs: 1 = the server refused with the "does not match"/key-share family *)
@@ -409,7 +409,7 @@ def model_cases(name, sc, r):
             kind, val = 0, 0
         out['front'].append('(%d, %d, %s, %d, %d)' % (smin, smax, ch_lit(chs_dlv[0]['obj']), kind, val))
     # K3
-    if shs_sent and shs_sent[0] is not None and not shs_sent[0]['hrr'] and not sc.get('resume'):
+    if shs_sent and shs_sent[0] is not None and not shs_sent[0]['hrr']:       # full and resumed ServerHellos
         f = shs_sent[0]
         out['written'].append('(%d, %d, %d)' % (smax, vz(f['v']), tail_code(f['tail'])))
     # K2: the hello the client holds (last one it sent before that ServerHello) and the first real ServerHello delivered
@@ -490,6 +490,14 @@ def run(ctx):
                                  'honest %s handshake: views differ in %s' % (n, sorted(extra)),
                                  {'scenario': n, 'ops': [], 'vc': b.get('vc'), 'vs': b.get('vs')}):
                     found = True
+            # the untampered run is judged first, so that a defect that needs no attacker is reported as such
+            if 'wire' in b and b.get('both'):
+                b0 = {'baseline_diff': b['diff'], 'negotiated': (b['vc']['version'], b['vc']['suite'])}
+                for k, what in judge(_scenarios()[n], b0, b, []):
+                    if ctx.violation(k, '%s [%s untampered]' % (what, n),
+                                     {'scenario': n, 'ops': [], 'c': b['c'], 's': b['s'],
+                                      'how': './check C04 --replay <this file>'}):
+                        found = True
             jobs += gen_jobs(ctx, n, b, quick)
         ctx.log('%d scenarios, %d attacked handshakes' % (len(names), len(jobs)))
         results = pool.map(work, jobs, chunksize=16)
